@@ -2,3 +2,9 @@
 //! typst_syntax only.
 
 pub mod basic;
+pub mod census;
+pub mod imports;
+pub mod layout;
+pub mod tree;
+pub mod ws;
+pub mod range;
